@@ -408,11 +408,25 @@ Proof.
   - intros a b c H1 H2. rewrite Z.compare_lt_iff in *. eapply Z.lt_trans; eassumption.
 Qed.
 
-Theorem list_random_pick_order_independent : forall oo1 oo2 defs l n,
-  ord_ok oo1 -> ord_ok oo2 -> NoDup (map snd (l_items l)) ->
-  list_random_pick_o oo1 defs l n = list_random_pick_o oo2 defs l n.
+Lemma random_sort_total_lex : forall a b,
+  random_sort_cmp TieTotal a b = (fun x y => entry_pc y x) (entry_proj a) (entry_proj b).
+Proof. reflexivity. Qed.
+
+Lemma flip_strict : forall A (c : A -> A -> comparison), strict_cmp c -> strict_cmp (fun a b => c b a).
 Proof.
-  intros oo1 oo2 defs l n [H1 _] [H2 _] Hnd. unfold list_random_pick_o.
+  intros A c H. constructor.
+  - intros a. apply (sc_refl _ H).
+  - intros a b E. symmetry. apply (sc_eq _ H). exact E.
+  - intros a b. apply (sc_antisym _ H).
+  - intros a b d H1 H2. eapply (sc_trans _ H); eassumption.
+Qed.
+
+(* iteration-order tie-break: independent when values are distinct *)
+Theorem list_random_pick_order_independent_distinct : forall oo1 oo2 defs l n,
+  ord_ok oo1 -> ord_ok oo2 -> NoDup (map snd (l_items l)) ->
+  list_random_pick_tb oo1 TieIteration defs l n = list_random_pick_tb oo2 TieIteration defs l n.
+Proof.
+  intros oo1 oo2 defs l n [H1 _] [H2 _] Hnd. unfold list_random_pick_tb, random_sort_cmp.
   rewrite (sort_by_order_independent _ _ (@snd listitem Z) _ Z_compare_flip_strict
              (ord_items oo1 (l_items l)) (ord_items oo2 (l_items l))).
   - reflexivity.
@@ -420,9 +434,27 @@ Proof.
   - eapply Permutation_NoDup; [apply Permutation_map, Permutation_sym, H1|exact Hnd].
 Qed.
 
+(* total order: independent for every map *)
+Theorem list_random_pick_order_independent_total : forall oo1 oo2 defs l n,
+  ord_ok oo1 -> ord_ok oo2 -> keys_nodup (l_items l) ->
+  list_random_pick_tb oo1 TieTotal defs l n = list_random_pick_tb oo2 TieTotal defs l n.
+Proof.
+  intros oo1 oo2 defs l n [H1 _] [H2 _] Hnd. unfold list_random_pick_tb.
+  change (random_sort_cmp TieTotal) with (fun a b : listitem * Z => entry_pc (entry_proj b) (entry_proj a)).
+  rewrite (sort_by_order_independent _ _ entry_proj _ (flip_strict _ _ entry_pc_strict)
+             (ord_items oo1 (l_items l)) (ord_items oo2 (l_items l))).
+  - reflexivity.
+  - eapply perm_trans; [apply H1|apply Permutation_sym, H2].
+  - eapply Permutation_NoDup; [apply Permutation_map, Permutation_sym, H1|].
+    unfold keys_nodup, keys in Hnd. clear - Hnd. induction (l_items l) as [|x r IH]; cbn; [constructor|].
+    cbn in Hnd. inversion Hnd as [|? ? Hn Hr]; subst. constructor; [|apply IH; exact Hr].
+    intros Hin. apply in_map_iff in Hin as [y [Hy Hin]]. apply entry_proj_inj in Hy. subst y.
+    apply Hn. apply in_map. exact Hin.
+Qed.
+
 Theorem list_random_pick_order_refuted :
   exists oo1 oo2 defs l n, ord_ok oo1 /\ ord_ok oo2 /\
-    list_random_pick_o oo1 defs l n <> list_random_pick_o oo2 defs l n.
+    list_random_pick_tb oo1 TieIteration defs l n <> list_random_pick_tb oo2 TieIteration defs l n.
 Proof.
   exists ord_id, ord_rev, [(T "L", [(T "a", 1)]); (T "M", [(T "x", 1)])], tie_list, 0.
   split; [apply ord_id_ok|]. split; [apply ord_rev_ok|]. vm_compute. discriminate.
